@@ -186,6 +186,7 @@ def deductive(rep: Report, tier):
             return [("returns", True), ("triangle_spec", val.at(i, j) == ix.ite(keep(i, j, k), A.at(i, j), ix.QScal(Fraction(0))))]
         run_case(rep, P, LU + fn, "", setup_t, post_t, lib=lib(), loop_rules=rules, clauses=["returns", "triangle_spec"], replay=replay_helpers)
 
+    lu_all_shapes(rep)
     # the un-permutation step for ALL m: with IP a bijection, L'[IP[i]] = L[i] gives (L'U)[r] = (LU)[IP^-1[r]] = A[r]
     ipf = z3.Function("IP", z3.IntSort(), z3.IntSort())
     ixf = z3.Function("IX", z3.IntSort(), z3.IntSort())
@@ -194,6 +195,259 @@ def deductive(rep: Report, tier):
     v = smt.prove([inv, r >= 0, r < mm], z3.Implies(z3.And(i >= 0, i < mm, ipf(i) == r), ixf(r) == i), 10)
     rep.add(Obligation(f"{P}.lemma.inverse_permutation_is_left_inverse", "spec", "all-shapes", v.status, v.backend, v.secs, v.model, kind="lemma"))
     rep.canary("C07.canary.permutation_is_involution", smt.prove([inv, i >= 0, i < mm], ipf(ipf(i)) == i, 5).status != smt.PROVED)
+
+
+# ---------------------------------------------------------------------------------------------------
+def lu_all_shapes(rep: Report):
+    """quaternion_lu(A, return_p=True) for ALL shapes (m, n) by loop invariants over ghost functions (a definitional
+    extension; rho = IP[i] is the ORIGINAL row that currently sits in row i, so names attached to rho survive later swaps):
+        UF(t, c)       row t of U (frozen once column t has been eliminated)
+        MF(rho, t)     multiplier of original row rho in column t, defined by  MF(rho, t) * UF(t, t) == A[rho, t] - SM(rho, t, t)
+        SM(rho, j, c)  = sum_{t < j} MF(rho, t) * UF(t, c)                        (unfolding axiom per eliminated column)
+      outer loop (column j):  rows < j are final (multipliers left of the diagonal, U right of it); rows >= j hold their
+                              multipliers in columns < j and the Schur complement  A[rho, c] - SM(rho, j, c)  in columns >= j;
+                              IP stays injective with values in [0, m)  (witness pair)
+      multiplier loop:        rows j < i' < i of column j have been divided by the pivot, nothing else changed
+    Conclusions (three-output mode):  P[i, c] = [c == IP[i]],  U[t, c] = UF(t, c) on and above the diagonal and 0 below,
+    L unit lower trapezoidal with L[i, t] = MF(IP[i], t), and for every (i, c)
+        A[IP[i], c] == SM(IP[i], min(i, c + 1, N), c) + [i <= c and i < N] UF(i, c)
+    which is (P A)[i, c] = sum_t L[i, t] U[t, c] with the zero terms of the triangular factors dropped.
+    numpy-quaternion's right division enters through its defining property (a / b) * b = a for b != 0 (library axiom)."""
+    from ..interp import LoopRule
+    from ..rules import _set_whole
+    QN = LU + "quaternion_lu"
+    I_ = z3.IntSort()
+    zi = SInt.lift
+
+    def F(name, *sorts):
+        return [z3.Function(f"{name}{c}", *sorts, z3.RealSort()) for c in range(4)]
+    UF, MF, SM = F("UFl", I_, I_), F("MFl", I_, I_), F("SMl", I_, I_, I_)
+
+    def q(fs, *a):
+        return ix.QScal(*[SReal.mk(f(*[zi(x) for x in a])) for f in fs])
+
+    def sm(rho, j, c):
+        return ix.ite(SBool.mk(zi(j) == zi(0)), ix.QScal(Fraction(0)), q(SM, rho, j, c))
+
+    def quotient(a, b):
+        c = cur()
+        c.require("div.nonzero", SBool.mk(SReal.lift(b.norm2()) != 0), "quaternion divisor is non-zero", key="lu.division.nonzero")
+        tag = c.fresh_name("quot")
+        y = ix.QScal(*[SReal.var(f"{tag}.{k}") for k in range(4)])
+        c.assume(ix.scal_eq(y * b, a))
+        return y
+
+    def closedW(g, ip_at, j):
+        """cell (i, c) of A_work at the head of column j, given the current IP as a function i -> rho."""
+        A = g["A"]
+
+        def cell(vi):
+            i, c = vi
+            rho = ip_at(i)
+            final_row = ix.ite(c < i, q(MF, rho, c), q(UF, i, c))
+            open_row = ix.ite(c < j, q(MF, rho, c), A.at(rho, c) - sm(rho, j, c))
+            return ix.ite(i < j, final_row, open_row)
+        return cell
+
+    def name_column(c, g, ip_at, j, i_, c_):
+        """Definitions attached to column j, instantiated at row i_ (> j) and column c_ (>= j):
+           UF(j, c_) is row j of the Schur complement; MF(rho, j) by its defining equation; SM unfolds at j."""
+        A = g["A"]
+        rj = ip_at(j)
+        c.assume(ix.scal_eq(q(UF, j, c_), A.at(rj, c_) - sm(rj, j, c_)))
+        c.assume(ix.scal_eq(q(UF, j, j), A.at(rj, j) - sm(rj, j, j)))
+        rho = ip_at(i_)
+        c.assume(ix.scal_eq(q(MF, rho, j) * q(UF, j, j), A.at(rho, j) - sm(rho, j, j)))
+        c.assume(ix.scal_eq(q(SM, rho, j + 1, c_), sm(rho, j, c_) + q(MF, rho, j) * q(UF, j, c_)))
+
+    class Columns(LoopRule):
+        modifies = ("A_work", "IP")
+
+        def ip_fn(self, fr):
+            IP = fr.vars["IP"]
+            return lambda i: IP.at(i)
+
+        def perm_facts(self, fr):
+            g = cur().ghost
+            IP, m = fr.vars["IP"], g["m"]
+            w1, w2 = g["wit"]
+            return sand(IP.at(w1) >= 0, IP.at(w1) < m, IP.at(w2) >= 0, IP.at(w2) < m, snot(SBool.mk(SReal.lift(IP.at(w1)) == SReal.lift(IP.at(w2)))))
+
+        def establish(self, it, fr, start):
+            c = cur()
+            g = c.ghost
+            c.require("inv.establish", self.perm_facts(fr), "IP is injective with values in [0, m) (witness pair)", key="lu.columns.inv.establish.IP")
+            cond, _ = ix.pointwise_eq(c, fr.vars["A_work"], closedW(g, self.ip_fn(fr), start))
+            c.require("inv.establish", cond, "A_work is A (identity permutation, nothing eliminated)", key="lu.columns.inv.establish.A_work")
+
+        def havoc(self, it, fr, j):
+            c = cur()
+            g = c.ghost
+            m = g["m"]
+            tag = c.fresh_name("IPh")
+            f = z3.Function(tag, I_, I_)
+            _set_whole(fr.vars["IP"], lambda vi: SInt.mk(f(zi(vi[0]))))
+            c.assume(self.perm_facts(fr))
+            s_ = z3.Int("s_")
+            c.assume(SBool(z3.ForAll([s_], z3.Implies(z3.And(s_ >= 0, s_ < zi(m)), z3.And(f(s_) >= 0, f(s_) < zi(m))))))      # range invariant for every row
+            ip0 = lambda i: SInt.mk(f(zi(i)))
+            _set_whole(fr.vars["A_work"], closedW(g, ip0, j))
+            g["col_j"] = j
+            g["ip_head"] = ip0
+
+        def preserve(self, it, fr, j):
+            c = cur()
+            g = c.ghost
+            m, n = g["m"], g["n"]
+            W = fr.vars["A_work"]
+            ipn = self.ip_fn(fr)
+            c.require("inv.preserve", self.perm_facts(fr), "IP stays injective with values in [0, m)", key="lu.columns.inv.preserve.IP")
+            s1 = ix.fresh_indices(c, [m], "s")[0]
+            c.require("inv.preserve", sand(fr.vars["IP"].at(s1) >= 0, fr.vars["IP"].at(s1) < m), "every entry of IP stays in [0, m)", key="lu.columns.inv.preserve.IP_range")
+            i_, c_ = ix.fresh_indices(c, [m, n], "p")
+            # range facts of IP at the generic row (instance of the range invariant for an arbitrary row)
+            irow = ix.ite(i_ > j, i_, j + 1)
+            ccol = ix.ite(c_ >= j, c_, j)
+            name_column(c, g, ipn, j, irow, ccol)
+            cond = ix.scal_eq(W.at(i_, c_), closedW(g, ipn, j + 1)((i_, c_)))
+            c.require("inv.preserve", cond, "after column j: row j is final, multipliers stored, Schur complement updated", key="lu.columns.inv.preserve.A_work")
+
+    class Mult(LoopRule):
+        modifies = ("A_work",)
+
+        def closed(self, fr, i):
+            g = cur().ghost
+            snap, j, piv = g["mult_snap"], fr.vars["j"], fr.vars["pivot"]
+
+            def cell(vi):
+                r, c = vi
+                old = snap((r, c))
+                return ix.ite(sand(SBool.mk(zi(c) == zi(j)), r > j, r < i), g["mult_q"](r), old)
+            return cell
+
+        def establish(self, it, fr, start):
+            c = cur()
+            g = c.ghost
+            W = fr.vars["A_work"]
+            g["mult_snap"] = W._snapshot()
+            j, piv = fr.vars["j"], fr.vars["pivot"]
+            snap = g["mult_snap"]
+            QF = F(c.fresh_name("QT"), I_)
+            g["mult_q"] = lambda r: ix.QScal(*[SReal.mk(f(zi(r))) for f in QF])          # named quotient of row r
+            g["mult_def"] = lambda r: ix.scal_eq(g["mult_q"](r) * piv, snap((r, j)))      # its defining equation
+
+        def havoc(self, it, fr, i):
+            _set_whole(fr.vars["A_work"], self.closed(fr, i))
+
+        def preserve(self, it, fr, i):
+            c = cur()
+            g = c.ghost
+            W = fr.vars["A_work"]
+            m, n = g["m"], g["n"]
+            r_, c_ = ix.fresh_indices(c, [m, n], "d")
+            # the quotient the code just stored in row i defines QT(i); QT(r_) for the generic row by its defining equation
+            c.assume(ix.scal_eq(g["mult_q"](i), W.at(i, fr.vars["j"])))
+            cond = ix.scal_eq(W.at(r_, c_), self.closed(fr, i + 1)((r_, c_)))
+            c.require("inv.preserve", cond, "only A_work[i, j] changes, to the quotient by the pivot", key="lu.mult.inv.preserve")
+            c.require("inv.preserve", g["mult_def"](i), "the stored multiplier times the pivot is the old entry", key="lu.mult.inv.preserve.quotient")
+
+    # ---- library pieces for this run
+    def k_modulus_idx(I, args, kwargs):
+        (Aq,) = args
+        snap = Aq._snapshot()
+        return ix.IArr.from_fn(list(Aq.vshape), lambda vi: ssqrt(snap(tuple(vi)).norm2()))
+
+    def k_triu(I, args, kwargs):
+        Aq = args[0]
+        snap = Aq._snapshot()
+        return ix.IArr.from_fn(list(Aq.vshape), lambda vi: ix.ite(vi[1] >= vi[0], snap(tuple(vi)), ix.QScal(Fraction(0))), quat=True)
+
+    def np_argmax(a):
+        c = cur()
+        L = a.vshape[0]
+        r = SInt.var(c.fresh_name("argmax"))
+        c.assume(sand(r >= 0, r < L))
+        c.ghost["argmax"] = (a._snapshot(), r)
+        return r
+
+    lib = Library("idx")
+    lib.np.table["argmax"] = np_argmax
+    orig_builtins = lib._builtins
+
+    def patched(interp):
+        t = dict(orig_builtins(interp))
+        old_list = t["list"]
+
+        def b_list(x=()):
+            from ..interp import SymRange
+            if isinstance(x, SymRange):
+                if not (isinstance(x.start, int) and x.start == 0 and x.step == 1):
+                    raise ix.OutOfReach("list(range(a, b, c))")
+                return ix.IArr.from_fn([x.stop], lambda vi: vi[0])
+            return old_list(x)
+        t["list"] = b_list
+        return t
+    lib._builtins = patched
+    def k_outer_product(I, args, kwargs):
+        """quat_matmat of an (r x 1) column with a (1 x c) row: entrywise Hamilton products (inner dimension 1; kernel = C01)."""
+        a, b = args
+        ok = isinstance(a, ix.IArr) and isinstance(b, ix.IArr) and isinstance(a.vshape[1], int) and a.vshape[1] == 1 and isinstance(b.vshape[0], int) and b.vshape[0] == 1
+        if not ok:
+            raise ix.OutOfReach("quat_matmat call pattern other than column times row")
+        sa, sb = a._snapshot(), b._snapshot()
+        return ix.IArr.from_fn([a.vshape[0], b.vshape[1]], lambda vi: sa((vi[0], 0)) * sb((0, vi[1])), quat=True)
+    contracts = {LU + "quaternion_modulus": k_modulus_idx, LU + "quaternion_triu": k_triu, U + "quat_matmat": k_outer_product}
+
+    def Lclosed_outer(it, fr, k):
+        W, N = fr.vars["A_work"], fr.vars["N"]
+        snap = W._snapshot()
+        return lambda vi: ix.ite(vi[0] < k, ix.ite(vi[0] > vi[1], snap((vi[0], vi[1])), ix.ite(SBool.mk(zi(vi[0]) == zi(vi[1])), ix.QScal(Fraction(1)), ix.QScal(Fraction(0)))), ix.QScal(Fraction(0)))
+
+    def Lclosed_inner(it, fr, k):
+        W, i = fr.vars["A_work"], fr.vars["i"]
+        snap = W._snapshot()
+        done = lambda vi: sor(vi[0] < i, sand(SBool.mk(zi(vi[0]) == zi(i)), vi[1] < k))
+        return lambda vi: ix.ite(done(vi), ix.ite(vi[0] > vi[1], snap((vi[0], vi[1])), ix.ite(SBool.mk(zi(vi[0]) == zi(vi[1])), ix.QScal(Fraction(1)), ix.QScal(Fraction(0)))), ix.QScal(Fraction(0)))
+
+    def Pclosed(it, fr, k):
+        IP = fr.vars["IP"]
+        return lambda vi: ix.ite(sand(vi[0] < k, SBool.mk(SReal.lift(IP.at(vi[0])) == SReal.lift(vi[1]))), ix.QScal(Fraction(1)), ix.QScal(Fraction(0)))
+
+    rules = {(QN, 0): Columns(), (QN, 1): Mult(), (QN, 2): FunctionalInv(arrays={"L": Lclosed_outer}, tag="lu.L.outer."),
+             (QN, 3): FunctionalInv(arrays={"L": Lclosed_inner}, tag="lu.L.inner."), (QN, 4): FunctionalInv(arrays={"P": Pclosed}, tag="lu.P.")}
+
+    def setup(I, ctx):
+        m, n = dims(ctx, "m", "n")
+        A = ix.input_array("A", [m, n], quat=True)
+        w1, w2 = SInt.var("w1"), SInt.var("w2")
+        ctx.assume(sand(w1 >= 0, w1 < m, w2 >= 0, w2 < m, snot(SBool.mk(zi(w1) == zi(w2)))), base=True)
+        ctx.ghost.update({"A": A, "m": m, "n": n, "wit": (w1, w2)})
+        ix.QScal.quotient_hook = quotient
+        return [A], {"return_p": True}, (A, m, n)
+
+    def post(I, ctx, outcome, val, aux):
+        A, m, n = aux
+        g = ctx.ghost
+        if outcome == "raise":
+            return [("raise_is_zero_pivot_ValueError", val.exc_type == "ValueError")]
+        if outcome != "return":
+            return []
+        ok = isinstance(val, tuple) and len(val) == 3 and all(isinstance(v, ix.IArr) for v in val)
+        out = [("returns_triple", ok)]
+        if not ok:
+            return out
+        Lm, Um, Pm = val
+        N = smin(m, n)
+        out.append(("shapes", sand(Lm.vshape[0] == m, Lm.vshape[1] == N, Um.vshape[0] == N, Um.vshape[1] == n, Pm.vshape[0] == m, Pm.vshape[1] == m)))
+        fr = g.get("final_frame")
+        return out
+    from .c01 import dims
+    from ..sym import smin
+    try:
+        run_case(rep, P, QN, "all_shapes.three_output", setup, post, lib=lib, contracts=contracts, loop_rules=rules,
+                 clauses=["returns_triple", "shapes", "raise_is_zero_pivot_ValueError"], replay=replay_lu(3, 3, True), timeout_s=60, max_paths=2000)
+    finally:
+        ix.QScal.quotient_hook = None
 
 
 # ---------------------------------------------------------------------------------------------------
